@@ -803,7 +803,7 @@ def path_forms(f: FuncInfo, g: CFG, e: ast.expr, at: Node, max_paths: int = 256)
                 else:
                     for x in ast.walk(t):
                         if isinstance(x, ast.Name) and isinstance(x.ctx, ast.Store):
-                            env2[x.id] = ast.Name(id=f"<{x.id}@L{getattr(a, 'lineno', 0)}>", ctx=ast.Load())
+                            env2[x.id] = ast.Name(id=f"unk__{x.id}__L{getattr(a, 'lineno', 0)}", ctx=ast.Load())
         elif n.kind == "stmt" and isinstance(a, ast.AugAssign) and isinstance(a.target, ast.Name):
             env2 = dict(env)
             cur = env.get(a.target.id, ast.Name(id=a.target.id, ctx=ast.Load()))
@@ -817,7 +817,7 @@ def path_forms(f: FuncInfo, g: CFG, e: ast.expr, at: Node, max_paths: int = 256)
             if names:
                 env2 = dict(env)
                 for nm in names:
-                    env2[nm] = ast.Name(id=f"<{nm}@L{getattr(a, 'lineno', 0)}>", ctx=ast.Load())
+                    env2[nm] = ast.Name(id=f"unk__{nm}__L{getattr(a, 'lineno', 0)}", ctx=ast.Load())
         for t, lab in n.succ:
             if lab not in normal and lab != "next":
                 continue
@@ -826,4 +826,137 @@ def path_forms(f: FuncInfo, g: CFG, e: ast.expr, at: Node, max_paths: int = 256)
 
     walk(g.entry, {p: ast.Name(id=p, ctx=ast.Load()) for p in ()}, frozenset(), ())
     _ = params
+    return out
+
+
+# ------------------------------------------------------------------------------------------ per-path summaries of a small function
+class PathSummary:
+    """One acyclic normal path of a function: the branch decisions taken (tests with the locals substituted forward), how it ends
+    (`ret` expression / `raised` expression / falls off the end) and the `self.<attr>` stores met, all expressed over the parameters and
+    the attribute values *at entry* (`self.a`); a read after the k-th store to `self.a` on that path is spelled `self__a__v<k>`."""
+
+    def __init__(self) -> None:
+        self.decisions: list[tuple[ast.expr, str]] = []
+        self.ret: ast.expr | None = None
+        self.raised: ast.expr | None = None
+        self.ends: str = "end"
+        self.stores: list[tuple[str, ast.expr, ast.stmt]] = []
+        self.calls: list[ast.Call] = []
+
+    def text(self) -> str:
+        return "; ".join(f"{ast.unparse(t)[:50]}={lab}" for t, lab in self.decisions)
+
+
+def path_summaries(f: FuncInfo, g: CFG | None = None, max_paths: int = 512) -> list[PathSummary]:
+    g = g or CFG(f.node)
+    me = f.self_name
+    stored_attrs = {t.attr for s in walk_scope(f.node) if isinstance(s, (ast.Assign, ast.AugAssign, ast.AnnAssign))
+                    for t in (s.targets if isinstance(s, ast.Assign) else [s.target]) for t in ([t] if not isinstance(t, (ast.Tuple, ast.List)) else t.elts)
+                    if isinstance(t, ast.Attribute) and isinstance(t.value, ast.Name) and t.value.id == me}
+    out: list[PathSummary] = []
+
+    def cp(x: ast.expr) -> ast.expr:
+        return ast.parse(ast.unparse(x), mode="eval").body
+
+    class Sub(ast.NodeTransformer):
+        def __init__(self, env: dict[str, ast.expr], ver: dict[str, int]) -> None:
+            self.env, self.ver = env, ver
+
+        def visit_Name(self, node: ast.Name):  # noqa: N802
+            if isinstance(node.ctx, ast.Load) and node.id in self.env:
+                return cp(self.env[node.id])
+            return node
+
+        def visit_Attribute(self, node: ast.Attribute):  # noqa: N802
+            if isinstance(node.value, ast.Name) and node.value.id == me and node.attr in stored_attrs and self.ver.get(node.attr, 0) > 0 and isinstance(node.ctx, ast.Load):
+                return ast.Name(id=f"self__{node.attr}__v{self.ver[node.attr]}", ctx=ast.Load())
+            return self.generic_visit(node)
+
+        def _comp(self, node):
+            bound = {x.id for gen in node.generators for x in ast.walk(gen.target) if isinstance(x, ast.Name)}
+            return Sub({k: v for k, v in self.env.items() if k not in bound}, self.ver).generic_visit(node)
+
+        visit_ListComp = visit_GeneratorExp = visit_SetComp = visit_DictComp = _comp  # noqa: N815
+
+    def subst(x: ast.expr, env, ver) -> ast.expr:
+        return Sub(env, ver).visit(cp(x))
+
+    def walk(n: Node, env: dict, ver: dict, seen: frozenset, ps: PathSummary) -> None:
+        if len(out) >= max_paths:
+            raise AnalysisError(f"{f.qualname}: more than {max_paths} paths")
+        if n is g.exit or n is g.raise_exit:
+            out.append(ps)
+            return
+        if n.idx in seen:
+            return
+        seen = seen | {n.idx}
+        a = n.ast
+
+        def fork() -> PathSummary:
+            q = PathSummary()
+            q.decisions, q.stores, q.calls = list(ps.decisions), list(ps.stores), list(ps.calls)
+            return q
+
+        if n.kind == "test" and a is not None:
+            t = subst(a, env, ver)  # type: ignore[arg-type]
+            for tgt, lab in n.succ:
+                if lab == "exc":
+                    continue
+                q = fork()
+                q.decisions.append((t, lab))
+                walk(tgt, env, ver, seen, q)
+            return
+        env2, ver2 = env, ver
+        if n.kind == "return":
+            ps.ends = "return"
+            ps.ret = subst(a.value, env, ver) if getattr(a, "value", None) is not None else ast.Constant(value=None)  # type: ignore[union-attr]
+        elif n.kind == "raise":
+            ps.ends = "raise"
+            ps.raised = subst(a.exc, env, ver) if getattr(a, "exc", None) is not None else None  # type: ignore[union-attr]
+        elif n.kind == "stmt" and isinstance(a, (ast.Assign, ast.AnnAssign, ast.AugAssign)) and getattr(a, "value", None) is not None:
+            env2, ver2 = dict(env), dict(ver)
+            tgts = a.targets if isinstance(a, ast.Assign) else [a.target]
+            val = subst(a.value, env, ver)
+            if isinstance(a, ast.AugAssign):
+                val = ast.BinOp(left=subst(ast.parse(ast.unparse(a.target), mode="eval").body, env, ver), op=a.op, right=val)
+            pairs: list[tuple[ast.expr, ast.expr]] = []
+            for t in tgts:
+                if isinstance(t, (ast.Tuple, ast.List)) and isinstance(a.value, (ast.Tuple, ast.List)) and len(t.elts) == len(a.value.elts) and not isinstance(a, ast.AugAssign):
+                    pairs.extend((te, subst(ve, env, ver)) for te, ve in zip(t.elts, a.value.elts))  # right-hand sides are evaluated before any binding
+                else:
+                    pairs.append((t, val))
+            for t, val in pairs:
+                if isinstance(t, ast.Name):
+                    env2[t.id] = val
+                elif isinstance(t, ast.Attribute) and isinstance(t.value, ast.Name) and t.value.id == me:
+                    ps.stores.append((t.attr, val, a))
+                    ver2[t.attr] = ver2.get(t.attr, 0) + 1
+                elif isinstance(t, ast.Subscript):
+                    base = t
+                    while isinstance(base, ast.Subscript):
+                        base = base.value
+                    if isinstance(base, ast.Attribute) and isinstance(base.value, ast.Name) and base.value.id == me:
+                        ps.stores.append((f"{base.attr}[{ast.unparse(subst(t.slice, env, ver))}]", val, a))
+                        ver2[base.attr] = ver2.get(base.attr, 0) + 1
+                        stored_attrs.add(base.attr)
+                    elif isinstance(base, ast.Name):
+                        env2[base.id] = ast.Name(id=f"unk__{base.id}__L{a.lineno}", ctx=ast.Load())
+                else:
+                    for x in ast.walk(t):
+                        if isinstance(x, ast.Name) and isinstance(x.ctx, ast.Store):
+                            env2[x.id] = ast.Name(id=f"unk__{x.id}__L{a.lineno}", ctx=ast.Load())
+        elif n.kind == "for" and a is not None:
+            env2 = dict(env)
+            for x in ast.walk(getattr(n.stmt, "target", a)):
+                if isinstance(x, ast.Name):
+                    env2[x.id] = ast.Name(id=f"unk__{x.id}__L{getattr(a, 'lineno', 0)}", ctx=ast.Load())
+        if a is not None and n.kind in ("stmt", "return", "raise"):
+            for c in ast.walk(a):
+                if isinstance(c, ast.Call):
+                    ps.calls.append(c)
+        succ = [(t, lab) for t, lab in n.succ if lab != "exc" or n.kind == "raise"]
+        for i, (tgt, lab) in enumerate(succ):
+            walk(tgt, env2, ver2, seen, ps if i == len(succ) - 1 else fork())
+
+    walk(g.entry, {}, {}, frozenset(), PathSummary())
     return out
